@@ -552,14 +552,22 @@ class ServeMpsMedia(MediaRequestBase):
                 start_time * representation.timescale / timing_ref.timescale))
         if seg_time is not None:
             start_time += seg_time
-        mod_seg, seg_start_tc, origin_time = representation.get_segment_index(
+        mod_seg, seg_start_tc, loop_origin = representation.get_segment_index(
             start_time)
 
         origin_time = -seg_start_tc
         if seg_time is not None:
             origin_time += seg_time
 
-        if seg_num is not None:
+        if seg_num is None:
+            # $Time$ request: the segment number counts from the first
+            # segment of the period
+            first_seg, _, first_loop = representation.get_segment_index(
+                start_time - seg_time)
+            if loop_origin != first_loop:
+                raise ValueError('Segment beyond end of media')
+            seg_num = representation.start_number + mod_seg - first_seg
+        else:
             mod_seg += seg_num - representation.start_number
             if mod_seg > representation.num_media_segments:
                 logging.warning(
